@@ -61,10 +61,18 @@ RENDER = {
     'codecookie': [b'x = 1  # coding: %s'],
     'strcookie': [b's = "coding: %s"', b"x = open(f, encoding=%s)"],
 }
-BODY = {'ascii': b'y = "plain"', 'utf8': b'y = "\xc3\xa9\xe2\x82\xac"', 'latin1': b'y = "\xe9"'}
+BODY = {'ascii': b'y = "plain"', 'utf8': b'y = "\xc3\xa9\xe2\x82\xac"', 'latin1': b'y = "\xe9"',
+        # bytes on which the iso-8859-N codecs differ from each other
+        'high': b'y = "\xa4\xa6\xbd\xe9"'}
 
 
 def norm(enc):
+    # PEP 263 names are first normalised the way CPython's tokenizer does (get_normal_name)
+    e = enc[:12].lower().replace('_', '-')
+    if e == 'utf-8' or e.startswith('utf-8-'):
+        return 'utf-8'
+    if e in ('latin-1', 'iso-8859-1', 'iso-latin-1') or e.startswith(('latin-1-', 'iso-8859-1-', 'iso-latin-1-')):
+        enc = 'iso-8859-1'
     try:
         n = codecs.lookup(enc).name
     except LookupError:
